@@ -1,7 +1,7 @@
 (** C12 — Lerp is affine with exact endpoints; nlerp and slerp stay on the unit sphere (real-valued part).
     The integer Lerp impls are covered by the hand-written model coq/model/IntLerp.v and its correspondence leg. *)
 From VekLib Require Import Ops ROps LinAlg RLin.
-From VekProofs Require Import C12_spec C12_pa C12_pb C12_pc C12_pd.
+From VekProofs Require Import C12_spec C12_pa C12_pb C12_pc C12_pd C12_fl.
 
 Theorem C12_scalar : C12_scalar_stmt.         Proof. exact C12_pa.C12_scalar. Qed.
 Theorem C12_vector : C12_vector_stmt.         Proof. exact C12_pa.C12_vector. Qed.
@@ -31,6 +31,9 @@ Theorem C12_int_nearest : forall lo hi from to num sh, 0 <= sh ->
   let d := 2 ^ sh in let v := from * d + num * (to - from) in let r := round_half_away v d in
   lo <= r <= hi -> ilerp lo hi from to num sh = r /\ 2 * Z.abs (d * r - v) <= d.
 Proof. exact ilerp_nearest. Qed.
+(** floating-point clause, under the rounded interpretation of lib/FlOps.v (Flocq FLX, precision 53) *)
+Theorem C12_float_lerp : C12_float_lerp_stmt. Proof. exact C12_fl.C12_float_lerp. Qed.
 Print Assumptions C12_int_endpoints.
 Print Assumptions C12_int_between.
 Print Assumptions C12_int_nearest.
+Print Assumptions C12_float_lerp.
